@@ -343,7 +343,27 @@ type Params struct {
 	DotDirs bool   `json:"dot_dirs"` // the input directory and a sub-directory have names ending in .bin / .dat
 	Small   bool   `json:"small"`    // columns mode: 12500-byte files (race pass)
 	Stale   bool   `json:"stale"`    // sched mode: a longer report of an earlier run already exists at the report path
+	Dup     bool   `json:"dup"`      // two sample files with the same base name and different contents in two sub-directories
 }
+
+const dupName = "same.bin"
+
+// addDup plants two more sample files that share a base name (devA/same.bin, devB/same.bin) with different
+// contents: the report needs one row for each. It returns the expected rows of that name.
+func addDup(root, in string, nf, size int, cols []Column, data map[string][]byte) map[string][][]float64 {
+	out := map[string][][]float64{}
+	for k, d := range []string{"devA", "devB"} {
+		_ = os.MkdirAll(filepath.Join(root, in, d), 0o755)
+		b := contents(nf+k, size)
+		_ = os.WriteFile(filepath.Join(root, in, d, dupName), b, 0o644)
+		data[dupName] = b
+		out[dupName] = append(out[dupName], expectedRow(cols, b))
+	}
+	return out
+}
+
+// dupRows: expected rows of base names that several sample files share (nil when there are none).
+var dupRows map[string][][]float64
 
 func SubMain(h Hooks) {
 	e1.SubMain(map[string]e1.Handler{"C13": func(t e1.Task) (*e1.Result, map[uint64]struct{}) { return handle(h, t) }})
@@ -406,13 +426,15 @@ func judgeReport(report string, header string, cols []Column, data map[string][]
 		lines = strings.Split(strings.TrimSuffix(body, "\n"), "\n")
 	}
 	seen := map[string]bool{}
+	dupSeen := map[string][][]float64{}
 	for _, l := range lines {
 		cells := strings.Split(l, ",")
 		name := strings.TrimSpace(cells[0])
 		if _, ok := data[name]; !ok {
 			return fmt.Sprintf("row %q does not start with the base name of a sample file", trunc(l, 60))
 		}
-		if seen[name] {
+		alts, isDup := dupRows[name]
+		if seen[name] && !isDup {
 			return fmt.Sprintf("two rows for sample file %s", name)
 		}
 		seen[name] = true
@@ -420,6 +442,18 @@ func judgeReport(report string, header string, cols []Column, data map[string][]
 			return fmt.Sprintf("row of %s has %d value columns, the header has %d", name, len(cells)-1, len(cols))
 		}
 		want := expectRows[name]
+		if isDup {
+			want = nil
+			var vals []float64
+			for i := range cols {
+				v, _ := strconv.ParseFloat(strings.TrimSpace(cells[i+1]), 64)
+				vals = append(vals, v)
+			}
+			dupSeen[name] = append(dupSeen[name], vals)
+			if len(dupSeen[name]) > len(alts) {
+				return fmt.Sprintf("%d rows named %s, %d sample files have that base name", len(dupSeen[name]), name, len(alts))
+			}
+		}
 		for i := range cols {
 			v, err := strconv.ParseFloat(strings.TrimSpace(cells[i+1]), 64)
 			if err != nil {
@@ -428,6 +462,27 @@ func judgeReport(report string, header string, cols []Column, data map[string][]
 			if want != nil && !math.IsNaN(want[i]) && math.Abs(v-want[i]) > 0.5e-6+1e-9 {
 				return fmt.Sprintf("row of %s: column %d %q holds %.6f, the library value it names is %.6f", name, i+1, cols[i].Label, v, want[i])
 			}
+		}
+	}
+	for name, alts := range dupRows {
+		if _, ok := data[name]; !ok {
+			continue
+		}
+		rows := dupSeen[name]
+		if len(rows) != len(alts) {
+			return fmt.Sprintf("%d row(s) named %s, %d sample files in different directories have that base name (one row per file)", len(rows), name, len(alts))
+		}
+		// two files: the rows must be the two expected rows in either order
+		match := func(row, want []float64) bool {
+			for i := range want {
+				if !math.IsNaN(want[i]) && math.Abs(row[i]-want[i]) > 0.5e-6+1e-9 {
+					return false
+				}
+			}
+			return true
+		}
+		if len(alts) == 2 && !(match(rows[0], alts[0]) && match(rows[1], alts[1]) || match(rows[0], alts[1]) && match(rows[1], alts[0])) {
+			return fmt.Sprintf("the two rows named %s do not hold the library values of the two files of that name (one each)", name)
 		}
 	}
 	var missing []string
@@ -621,6 +676,9 @@ func handle(h Hooks, t e1.Task) (*e1.Result, map[uint64]struct{}) {
 	for n, b := range data {
 		expRows[n] = expectedRow(cols, b)
 	}
+	if p.Dup {
+		dupRows = addDup(base, inDir, p.Files, fileSize(p.Scale), cols, data)
+	}
 	execNo := 0
 	cfg := explore.Config{Name: t.Name, Bound: t.Bound, CostAll: t.CostAll, Shard: t.Shard, NShards: t.NShards, MaxExecs: t.MaxExec,
 		Opt: vsched.Options{NumCPU: t.W, Policy: t.Policy, MaxSteps: 400000, ExitOnMainReturn: true}}
@@ -724,6 +782,11 @@ func Run(ctx *common.Ctx) int {
 				// input directory and a sub-directory whose own names end in .bin / .dat: they are not samples
 				pd, _ := json.Marshal(Params{Mode: "sched", Scale: "2E4", Files: F, Workers: nW, DotDirs: true})
 				tasks = append(tasks, e1.Task{Check: "C13", Name: fmt.Sprintf("c13/sched-dotdirs/F%d/n%d/b1", F, nW), Params: pd, Bound: 1, W: 4, NShards: 1, CostAll: true})
+			}
+			if F == 1 && nW <= 2 {
+				// two more sample files share a base name in two sub-directories: one row each
+				pd, _ := json.Marshal(Params{Mode: "sched", Scale: "2E4", Files: F, Workers: nW, Dup: true})
+				tasks = append(tasks, e1.Task{Check: "C13", Name: fmt.Sprintf("c13/sched-samename/F%d+2/n%d/b1", F, nW), Params: pd, Bound: 1, W: 4, NShards: 1, CostAll: true})
 			}
 			if F >= 2 && nW >= 2 && nW <= 3 {
 				// the same under the delay-bounded default policy (a preempted thread stays behind until all others block)
